@@ -108,6 +108,12 @@ CLAIMED = {
         "exhaustive configuration x path enumeration with a differential (twin-world) oracle",
         "DESIGN.md §4 C17",
     ),
+    "C18": (
+        "Stateful property testing of every write path of every bounded parameter: generated sequences of instantiations and updates (factory create, factory-mediated update, direct instantiation of the child code; distributor / lair / collector instantiate and UpdateConfig; trio ramps with block advances) with values placed on, one 18-decimal atomic inside and outside each bound (single share and fee sums at 1 -/+ 1e-18, grace 0/1/30/31, duration one day -/+ 1 ns, amp 0/1/10^6/10^6+1, growth and take rate 1 -/+ 1e-18, 0..3 bonding assets incl. a cw20); after every step the Config (and PairInfo) of every contract created so far is read back and checked against the documented bounds, including 'grace never decreases'; a rejected write must leave the world snapshot unchanged.",
+        "Token-factory vault assets are recognised by the factory/ prefix; in the default build such a vault cannot be created at all (its cw20 LP symbol is invalid), so that clause is exercised only as 'cannot exist'.",
+        "stateful property testing with boundary-value generators and a read-back invariant",
+        "DESIGN.md §4 C18",
+    ),
     "C02": (
         "Generated-input search (proptest, 16 deterministic shards) over the whole documented domain [1,2^128)^3 x valid fee triples x decimals, judged against an independent exact 1024-bit reference: gross floor, fee floors, strict bound, totality inside the 128-bit domain, there-and-back with the case's fees and with zero fees, gross monotone in the offer. Exploration, not proof: millions of cases per quick run, hundreds of millions thorough, with boundary constants and extreme-ratio shapes weighted in.",
         "Trusts refmath.rs (bnum integers, self-tested at start-up) and that commands::swap / queries::query_simulation call the hooked compute_swap (cross-checked by C14). A panic is an abort.",
